@@ -88,7 +88,7 @@ class Ctx:
     def spec_dir(self, name="spec"):
         d = self.subdir(name)
         for f in os.listdir(SPEC):
-            if f.endswith((".tla", ".cfg")):
+            if f.endswith((".tla", ".cfg", ".ndjson")):
                 shutil.copy(os.path.join(SPEC, f), d)
         return d
 
